@@ -26,7 +26,7 @@ ASSUMPTIONS = [
     "calibration variant: every candidate evaluation must start from a fresh copy (detector memory 0, unmutated arguments) and the caller's detector / pipeline / readout must be unchanged afterwards",
 ]
 COMPONENTS = {"real": ["pyxel Processor deep copies / create_new_processor / Processor.replace / observation paths", "dask get_async"], "stub": ["thread pool"]}
-BUDGET = {"quick": {"n": 240, "wall": 100, "determinism": 4}, "thorough": {"n": 15000, "wall": 1500, "determinism": 12}}
+BUDGET = {"quick": {"n": 240, "wall": 100, "determinism": 4}, "thorough": {"n": 30000, "wall": 1500, "determinism": 12}}
 REQUIRED_REACH = ["variant:calibration", "line_level_preemption", "readout_times_swept", "path:seq", "path:par", "stateful", "mutate_list", "mutate_ndarray", "failed_run_snapshot", "polluted_caller", "mode:sequential", "mode:product"]
 
 
